@@ -18,4 +18,8 @@ theorem browser_question_type_eq (unforced first : Bool) (qu forced : Nat) :
       if unforced = true ∧ first = true then qu else forced := by
   cases unforced <;> cases first <;> simp [BrowserQuery.query_type_arg, BrowserQuery.question_type]
 
+/-- a heard question is remembered with the arrival time of the assembled query's last packet (`now = msg.now`), whenever the query is
+processed -/
+theorem heard_stamp_eq (msgNow : Int) : BrowserQuery.heard_stamp_arg (BrowserQuery.heard_stamp msgNow) = msgNow := rfl
+
 end Zc.GenFacts.QueryMsg
